@@ -240,6 +240,31 @@ func c04Run(t *testing.T, s Scenario, src verifsim.DecisionSource, keep bool) *R
 		// one writer per file, run sequentially interleaved by time: simple
 		// approach — a goroutine per file
 		wdone := make(chan struct{}, nf)
+		mainDone := make(chan struct{}, nf)
+		sentGo := make(chan struct{})
+		w.Sim.GoOn(w.ClientNode, "harness/barrier", func() {
+			for range sc.Files {
+				verifsim.Yield("harness/waitmain")
+				<-mainDone
+			}
+			drain := 3 * time.Second
+			msgs := 0
+			for _, f := range sc.Files {
+				msgs += 2 * (len(f.LineLens) + c04Sentinels + 1)
+			}
+			if msgs > 400 {
+				msgs = 400 // what can be queued: 100 lines, twice over for good measure
+			}
+			for _, sp := range sc.Stalls {
+				if sp.To < 0 {
+					drain += time.Duration(sp.DurMs*msgs) * time.Millisecond
+				} else {
+					drain += time.Duration(sp.DurMs*(sp.To-sp.From)) * time.Millisecond
+				}
+			}
+			w.Sleep(drain)
+			close(sentGo)
+		})
 		for fi := range sc.Files {
 			fi := fi
 			w.Sim.GoOn(w.ClientNode, "harness/writer", func() {
@@ -311,8 +336,13 @@ func c04Run(t *testing.T, s Scenario, src verifsim.DecisionSource, keep bool) *R
 					truth[fi] = append(truth[fi], c04Line{ln, cls})
 					off += len(ln) + 1
 				}
-				// sentinels: after the queue had time to drain, three slow lines
-				w.Sleep(3 * time.Second)
+				// sentinels: three slow lines per file, written only after EVERY writer
+				// has finished its stream and the shared delivery queue had time to
+				// drain (3 s plus whatever the consumer pauses add up to): from then on
+				// fewer lines are appended than the queue holds, so none may be dropped
+				mainDone <- struct{}{}
+				verifsim.Yield("harness/waitbarrier")
+				<-sentGo
 				for k := 0; k < c04Sentinels; k++ {
 					n := f.Initial + len(lines) + 1 + k
 					ln := sc.line(fi, n, 8)
